@@ -2,9 +2,814 @@
 C10, property theorems about the TRANSLATED cipher-suite selection / resumption decision
 (`Src.<stack>.sel`; see DESIGN.md 12.4).  Same namespace as Props/C10.lean; listed in checks/C10.json under
 extra_props_files.
+
+`Gotlcp.Src.{tlcp,dtlcp}.sel.serverHandshakeState.checkForResumption` (the server's decision to resume) and
+`clientHandshakeState.serverResumedSession` / `processServerHello` (the client's acceptance) are regenerated from the
+Go source on every run.  The statements below are about THOSE definitions: for every suite table `tbl`, every
+answer `nn` to `CipherSuites != nil` and `nb` to `hello.sessionId != nil`, every session cache (the stub `goCache`: an
+association list whose `Get` returns the first entry under the key), every handshake state whose pointers `hs.c`,
+`hs.c.config`, `hs.clientHello` (server) / `hs.c`, `hs.hello`, `hs.serverHello` (client) are non-nil.
+
+* `C10_src_sel_resume_iff_*`: the server resumes EXACTLY when a cache is configured, the offered id is non-empty,
+  the cache holds it (first match) with a non-nil state `st`, the client-authentication policy and the recorded
+  client certificates agree, `st.vers` is the connection's version, the client still offers `st.cipherSuite`, and
+  `selectCipherSuite([st.cipherSuite], configured, cipherSuiteOk)` finds a suite;
+* `C10_src_sel_refused_*`: whenever one of the policy / version / suite conditions fails for the session found,
+  resumption is REFUSED, without an error and without touching the connection: the fall-back is transparent
+  (`C10_src_sel_fallback_transparent_*`: the `pickCipherSuite` that follows picks what it would have picked had no
+  session been offered);
+* `C10_src_sel_resumed_suite_*`: a resumed handshake uses the session's OWN suite (the table entry of
+  `st.cipherSuite`), which the configuration in use still enables, the key types still admit and the client still
+  offers; `C10_src_sel_client_*`: the client reports "resumed" exactly when it holds a session, sent a non-nil id and
+  got a non-empty identical id back, with the session's version, the session's suite and a master secret — a
+  different version or suite is refused with handshake_failure (40), a missing master secret with
+  internal_error (80); `C10_src_sel_resumption_agreement_*`: what the server resumes the client accepts;
+* the panics (`C10_src_sel_panics_*`): nil pointers, and a cache that answers `(nil, true)`: the Go code then
+  dereferences the nil state — a panic, not a fall-back; nothing else fails (`C10_src_sel_total_*`);
+* `C10_src_sel_is_model_*`: the translated decision is `Model.Resumption.checkForResumption`'s, through an
+  abstraction of the lookup; this is what the guards of the model rest on — the text fact `resServerGuards` is no
+  longer pinned by `C10_facts`.
 -/
-import Gotlcp.Generated.Src
+import Gotlcp.Tie.ResumeDecision
+import Gotlcp.Oracle.C10
+
+set_option linter.unusedSimpArgs false
+set_option linter.unusedVariables false
 
 namespace Gotlcp.Props.C10
+open Gotlcp.Tie.Select
+open Gotlcp.Tie.ResumeDecision
+
+/-- every function the translator was asked for was translated; the policy table the model tie needs -/
+theorem C10_src_sel_translated :
+    Src.untranslated = [] ∧ Oracle.C10.tlcpParams.requires = [2, 4, 5] ∧ Oracle.C10.dtlcpParams.requires = [2, 4, 5] := by
+  decide
+
+/-! ### TLCP -/
+
+section tlcp
+open Gotlcp.Src.tlcp.sel Gotlcp.Tie.Select.tlcp Gotlcp.Tie.ResumeDecision.tlcp
+
+/-- `selectCipherSuite` on the one-element list `[x]`, on the translated text -/
+theorem select_single_tlcp (tbl : BitVec 16 → Option cipherSuite) (x : BitVec 16) (supported : List (BitVec 16))
+    (ok : cipherSuite → Bool) (s : cipherSuite) :
+    selectCipherSuite tbl [x] supported ok = .ok (some s) ↔ tbl x = some s ∧ ok s = true ∧ x ∈ supported := by
+  rw [select_eq]
+  simp only [Except.ok.injEq]
+  exact selectSpec_singleton tbl x supported ok s
+
+/-- RESUME IFF.  The translated `checkForResumption` returns true EXACTLY when: a session cache is configured; the
+ClientHello's session id is non-empty; the FIRST cache entry under `hex(session id)` holds a non-nil state `st`; a
+policy for which `requiresClientCert` holds finds client certificates recorded in `st`; a session with recorded
+client certificates is not resumed under NoClientCert (0); `st.vers` is the connection's version; the ClientHello
+still offers `st.cipherSuite`; and `selectCipherSuite([st.cipherSuite], c.config.cipherSuites(), hs.cipherSuiteOk)`
+returns a suite `s`.  Then `hs.sessionState = st`, `hs.suite = s`, and nothing else changed. -/
+theorem C10_src_sel_resume_iff_tlcp (tbl : BitVec 16 → Option cipherSuite) (nn : List (BitVec 16) → Bool)
+    (hs : serverHandshakeState) (c : Conn) (cfg : Config) (ch : clientHelloMsg)
+    (hc : hs.c = some c) (hcfg : c.config = some cfg) (hch : hs.clientHello = some ch) (hs' : serverHandshakeState) :
+    serverHandshakeState.checkForResumption tbl nn hs = .ok (hs', true) ↔
+      ∃ cache e st s,
+        cfg.SessionCache = some cache ∧ ch.sessionId ≠ [] ∧
+        cache.entries.find? (fun e => e.key == Go.hexEncode ch.sessionId) = some e ∧ e.state = some st ∧
+        (requiresClientCert cfg.ClientAuth = true → st.peerCertificates ≠ []) ∧
+        (st.peerCertificates ≠ [] → cfg.ClientAuth ≠ 0) ∧
+        st.vers = c.vers ∧ st.cipherSuite ∈ ch.cipherSuites ∧
+        selectCipherSuite tbl [st.cipherSuite] (Config.cipherSuites nn cfg) (serverHandshakeState.cipherSuiteOk hs) =
+          .ok (some s) ∧
+        hs' = { hs with sessionState := some st, suite := some s } := by
+  rw [cfr_true_iff tbl nn hs c cfg ch hc hcfg hch]
+  constructor
+  · rintro ⟨st, s, ⟨⟨cache, e, h1, h2, h3⟩, h4, h5, h6, h7, h8, h9, h10, h11⟩, rfl⟩
+    exact ⟨cache, e, st, s, h1, h4, h2, h3, h5, h6, h7, h8, (select_single_tlcp _ _ _ _ _).mpr ⟨h9, h10, h11⟩, rfl⟩
+  · rintro ⟨cache, e, st, s, h1, h4, h2, h3, h5, h6, h7, h8, hsel, rfl⟩
+    obtain ⟨h9, h10, h11⟩ := (select_single_tlcp _ _ _ _ _).mp hsel
+    exact ⟨st, s, ⟨⟨cache, e, h1, h2, h3⟩, h4, h5, h6, h7, h8, h9, h10, h11⟩, rfl⟩
+
+/-- REFUSED.  Let the cache hold the session `st` under the offered id (first match).  If the policy requires a
+client certificate and `st` records none, or `st` records one and the policy is NoClientCert, or `st.vers` is not
+the connection's version, or the client no longer offers `st.cipherSuite`, or the configuration in use no longer
+enables it, or the table does not know it, or the key types do not admit it — then `checkForResumption` returns
+FALSE, with no error; the state it leaves differs from the one it found only in `hs.sessionState` (and possibly
+`hs.suite = nil`): the connection, the ClientHello and the key flags are untouched, no alert is sent. -/
+theorem C10_src_sel_refused_tlcp (tbl : BitVec 16 → Option cipherSuite) (nn : List (BitVec 16) → Bool)
+    (hs : serverHandshakeState) (c : Conn) (cfg : Config) (ch : clientHelloMsg) (cache : goCache) (e : goCacheEntry)
+    (st : SessionState)
+    (hc : hs.c = some c) (hcfg : c.config = some cfg) (hch : hs.clientHello = some ch)
+    (hcache : cfg.SessionCache = some cache) (hsid : ch.sessionId ≠ [])
+    (hf : cache.entries.find? (fun e => e.key == Go.hexEncode ch.sessionId) = some e) (hst : e.state = some st)
+    (hbad : (requiresClientCert cfg.ClientAuth = true ∧ st.peerCertificates = []) ∨
+            (st.peerCertificates ≠ [] ∧ cfg.ClientAuth = 0) ∨
+            st.vers ≠ c.vers ∨ st.cipherSuite ∉ ch.cipherSuites ∨ st.cipherSuite ∉ Config.cipherSuites nn cfg ∨
+            tbl st.cipherSuite = none ∨
+            (∀ s, tbl st.cipherSuite = some s → serverHandshakeState.cipherSuiteOk hs s = false)) :
+    ∃ hs', serverHandshakeState.checkForResumption tbl nn hs = .ok (hs', false) ∧
+      hs'.c = hs.c ∧ hs'.clientHello = hs.clientHello ∧ keys hs' = keys hs ∧ hs'.sessionState = some st ∧
+      (hs'.suite = hs.suite ∨ hs'.suite = none) := by
+  obtain ⟨hs', hres⟩ := cfr_found tbl nn hs c cfg ch cache e st hc hcfg hch hcache hsid hf hst
+  have hd : decision tbl nn hs c cfg ch st = false := by
+    cases hdd : decision tbl nn hs c cfg ch st with
+    | false => rfl
+    | true =>
+      rw [hdd] at hres
+      obtain ⟨st2, s2, ⟨⟨cache2, e2, k1, k2, k3⟩, _, k5, k6, k7, k8, k9, k10, k11⟩, _⟩ :=
+        (cfr_true_iff tbl nn hs c cfg ch hc hcfg hch hs').mp hres
+      rw [hcache] at k1
+      cases k1
+      rw [hf] at k2
+      cases k2
+      rw [hst] at k3
+      cases k3
+      rcases hbad with ⟨b1, b2⟩ | ⟨b1, b2⟩ | b | b | b | b | b
+      · exact absurd b2 (k5 b1)
+      · exact absurd b2 (k6 b1)
+      · exact absurd k7 b
+      · exact absurd k8 b
+      · exact absurd k11 b
+      · rw [b] at k9; cases k9
+      · rw [b s2 k9] at k10; cases k10
+  rw [hd] at hres
+  obtain ⟨ss, hfr⟩ := cfr_false_frame tbl nn hs c cfg ch hc hcfg hch hs' hres
+  have hss : hs'.sessionState = some st := by
+    rw [cfr_eq tbl nn hs c cfg ch hc hcfg hch] at hres
+    unfold cfrSpec at hres
+    have h0 : ch.sessionId.isEmpty = false := (isEmpty_eq_false_iff _).mpr hsid
+    simp only [hcache, h0, Bool.false_eq_true, if_false, hf, hst] at hres
+    split at hres
+    · cases hres; rfl
+    · split at hres
+      · cases hres; rfl
+      · split at hres
+        · cases hres; rfl
+        · split at hres
+          · cases hres; rfl
+          · split at hres <;> cases hres <;> rfl
+  refine ⟨hs', hres, ?_, ?_, ?_, hss, ?_⟩ <;> rcases hfr with h | h <;> subst h
+  · rfl
+  · rfl
+  · rfl
+  · rfl
+  · rfl
+  · rfl
+  · exact Or.inl rfl
+  · exact Or.inr rfl
+
+/-- TRANSPARENT FALL-BACK.  After a refused resumption (`checkForResumption` returned false) the server's
+`pickCipherSuite` picks exactly the suite, sends exactly the alerts and returns exactly the error it would have
+without any session having been offered. -/
+theorem C10_src_sel_fallback_transparent_tlcp (tbl : BitVec 16 → Option cipherSuite) (nn : List (BitVec 16) → Bool)
+    (hs : serverHandshakeState) (c : Conn) (cfg : Config) (ch : clientHelloMsg)
+    (hc : hs.c = some c) (hcfg : c.config = some cfg) (hch : hs.clientHello = some ch) (hs' : serverHandshakeState)
+    (h : serverHandshakeState.checkForResumption tbl nn hs = .ok (hs', false)) :
+    (serverHandshakeState.pickCipherSuite tbl nn hs').map (fun r => (r.1.suite, r.1.c, r.2)) =
+    (serverHandshakeState.pickCipherSuite tbl nn hs).map (fun r => (r.1.suite, r.1.c, r.2)) := by
+  obtain ⟨ss, hfr⟩ := cfr_false_frame tbl nn hs c cfg ch hc hcfg hch hs' h
+  rw [pick_eq tbl nn hs c cfg ch hc hcfg hch]
+  rcases hfr with h | h <;> subst h
+  · rw [pick_eq tbl nn { hs with sessionState := ss } c cfg ch hc hcfg hch]
+    have hk : keys { hs with sessionState := ss } = keys hs := rfl
+    rw [hk]
+    cases pickSpec tbl (Config.cipherSuites nn cfg) ch.cipherSuites (fun s => okFlags (keys hs) s.flags) <;> rfl
+  · rw [pick_eq tbl nn { hs with sessionState := ss, suite := none } c cfg ch hc hcfg hch]
+    have hk : keys { hs with sessionState := ss, suite := none } = keys hs := rfl
+    rw [hk]
+    cases pickSpec tbl (Config.cipherSuites nn cfg) ch.cipherSuites (fun s => okFlags (keys hs) s.flags) <;> rfl
+
+/-- THE RESUMED SUITE.  When the translated `checkForResumption` returns true, the handshake state holds a session
+`st` and a suite `s` such that: `s` is the table entry of the session's OWN suite id; the configuration in use
+still enables that id; the client still offers it; the key types still admit `s`; the session has the connection's
+version; and (tables whose entries carry their own id) `s.id = st.cipherSuite`. -/
+theorem C10_src_sel_resumed_suite_tlcp (tbl : BitVec 16 → Option cipherSuite) (nn : List (BitVec 16) → Bool)
+    (hs : serverHandshakeState) (c : Conn) (cfg : Config) (ch : clientHelloMsg)
+    (hc : hs.c = some c) (hcfg : c.config = some cfg) (hch : hs.clientHello = some ch) (hs' : serverHandshakeState)
+    (h : serverHandshakeState.checkForResumption tbl nn hs = .ok (hs', true)) :
+    ∃ st s, hs'.sessionState = some st ∧ hs'.suite = some s ∧ tbl st.cipherSuite = some s ∧
+      st.cipherSuite ∈ Config.cipherSuites nn cfg ∧ st.cipherSuite ∈ ch.cipherSuites ∧
+      serverHandshakeState.cipherSuiteOk hs s = true ∧ st.vers = c.vers ∧
+      ((∀ id x, tbl id = some x → x.id = id) → s.id = st.cipherSuite) ∧
+      hs'.c = hs.c ∧ hs'.clientHello = hs.clientHello := by
+  obtain ⟨st, s, ⟨_, _, _, _, k7, k8, k9, k10, k11⟩, rfl⟩ := (cfr_true_iff tbl nn hs c cfg ch hc hcfg hch hs').mp h
+  exact ⟨st, s, rfl, rfl, k9, k11, k8, k10, k7, fun ht => ht _ _ k9, rfl, rfl⟩
+
+/-- PANICS.  `checkForResumption` panics when `hs.c` or `hs.c.config` is nil; with a session cache configured, when
+`hs.clientHello` is nil (without one it returns false before touching the ClientHello); and when the cache answers
+`(nil, true)` for the offered id: `hs.sessionState` is then nil and `len(hs.sessionState.peerCertificates)`
+dereferences it.  (The repository's own `lruSessionCache` never stores a nil state — `Put(k, nil)` deletes — so
+this needs a foreign `SessionCache` implementation.) -/
+theorem C10_src_sel_panics_tlcp (tbl : BitVec 16 → Option cipherSuite) (nn : List (BitVec 16) → Bool)
+    (hs : serverHandshakeState) :
+    (hs.c = none ∨ (∃ c, hs.c = some c ∧ c.config = none) →
+      serverHandshakeState.checkForResumption tbl nn hs = .error nilDeref) ∧
+    (∀ c cfg, hs.c = some c → c.config = some cfg → cfg.SessionCache = none →
+      serverHandshakeState.checkForResumption tbl nn hs = .ok (hs, false)) ∧
+    (∀ c cfg cache, hs.c = some c → c.config = some cfg → cfg.SessionCache = some cache → hs.clientHello = none →
+      serverHandshakeState.checkForResumption tbl nn hs = .error nilDeref) ∧
+    (∀ c cfg ch cache e, hs.c = some c → c.config = some cfg → hs.clientHello = some ch →
+      cfg.SessionCache = some cache → ch.sessionId ≠ [] →
+      cache.entries.find? (fun e => e.key == Go.hexEncode ch.sessionId) = some e → e.state = none →
+      serverHandshakeState.checkForResumption tbl nn hs = .error nilDeref) :=
+  ⟨cfr_nil_conn tbl nn hs, fun c cfg h1 h2 h3 => cfr_no_cache tbl nn hs c cfg h1 h2 h3,
+    fun c cfg cache h1 h2 h3 h4 => cfr_nil_hello tbl nn hs c cfg cache h1 h2 h3 h4,
+    fun c cfg ch cache e h1 h2 h3 h4 h5 h6 h7 => cfr_nil_state tbl nn hs c cfg ch h1 h2 h3 ⟨cache, e, h4, h5, h6, h7⟩⟩
+
+/-- TOTAL otherwise: with non-nil `hs.c`, `hs.c.config`, `hs.clientHello` and a cache that does not answer
+`(nil, true)`, `checkForResumption` returns (no panic, and it has no loop that could run away). -/
+theorem C10_src_sel_total_tlcp (tbl : BitVec 16 → Option cipherSuite) (nn : List (BitVec 16) → Bool)
+    (hs : serverHandshakeState) (c : Conn) (cfg : Config) (ch : clientHelloMsg)
+    (hc : hs.c = some c) (hcfg : c.config = some cfg) (hch : hs.clientHello = some ch)
+    (hn : ¬ ∃ cache e, cfg.SessionCache = some cache ∧ ch.sessionId ≠ [] ∧
+      cache.entries.find? (fun e => e.key == Go.hexEncode ch.sessionId) = some e ∧ e.state = none) :
+    ∃ hs' b, serverHandshakeState.checkForResumption tbl nn hs = .ok (hs', b) := by
+  obtain ⟨r, hr⟩ := cfr_total tbl nn hs c cfg ch hc hcfg hch hn
+  exact ⟨r.1, r.2, hr⟩
+
+/-- THE CLIENT.  `processServerHello` never panics (non-nil `hs.c`, `hs.hello`, `hs.serverHello`) and reports
+"resumed" EXACTLY when: the ServerHello's suite is one the client offered and the table knows (`s`), the compression
+method is null, the ALPN protocol is acceptable, the client holds a session, it sent a non-nil session id, the server
+echoed a non-empty identical id, the session has the connection's version, the session's suite is `s.id`, and the
+session has a master secret.  Then the error is nil, `hs.masterSecret` is a copy of the session's, the
+connection's peer certificates are the session's, `c.cipherSuite = s.id`. -/
+theorem C10_src_sel_client_resumed_iff_tlcp (tbl : BitVec 16 → Option cipherSuite) (nb : List (BitVec 8) → Bool)
+    (hs : clientHandshakeState) (c : Conn) (h : clientHelloMsg) (sh : serverHelloMsg)
+    (hc : hs.c = some c) (hh : hs.hello = some h) (hsh : hs.serverHello = some sh) :
+    ∃ hs' b e, clientHandshakeState.processServerHello tbl nb hs = .ok (hs', b, e) ∧
+      (b = true ↔ ∃ s sess,
+        mutualCipherSuite tbl h.cipherSuites sh.cipherSuite = some s ∧ sh.compressionMethod = 0#8 ∧
+        checkALPN h.alpnProtocols sh.alpnProtocol = none ∧
+        hs.session = some sess ∧ nb h.sessionId = true ∧ sh.sessionId ≠ [] ∧ sh.sessionId = h.sessionId ∧
+        sess.vers = c.vers ∧ sess.cipherSuite = s.id ∧ sess.masterSecret ≠ []) ∧
+      (b = true → e = none ∧ ∃ s sess, hs.session = some sess ∧ hs'.suite = some s ∧
+        hs'.masterSecret = sess.masterSecret ∧
+        hs'.c = some { c with cipherSuite := s.id, clientProtocol := sh.alpnProtocol,
+                              peerCertificates := sess.peerCertificates }) := by
+  rw [psh_eq tbl nb hs c h sh hc hh hsh]
+  refine ⟨(pshSpec tbl nb hs c h sh).1, (pshSpec tbl nb hs c h sh).2.1, (pshSpec tbl nb hs c h sh).2.2, rfl, ?_, ?_⟩
+  · rw [psh_true_iff]
+    unfold accepted echoed
+    rw [mutual_eq, checkALPN_eq]
+    constructor
+    · rintro ⟨s, sess, ⟨a1, a2, a3⟩, a4, a5, a6, a7, a8⟩
+      simp only [Bool.and_eq_true, Bool.not_eq_true', beq_iff_eq] at a5
+      exact ⟨s, sess, a1, a2, a3, a4, a5.1.1, (isEmpty_eq_false_iff _).mp a5.1.2, a5.2, a6, a7, a8⟩
+    · rintro ⟨s, sess, a1, a2, a3, a4, b1, b2, b3, a6, a7, a8⟩
+      refine ⟨s, sess, ⟨a1, a2, a3⟩, a4, ?_, a6, a7, a8⟩
+      simp only [Bool.and_eq_true, Bool.not_eq_true', beq_iff_eq]
+      exact ⟨⟨b1, (isEmpty_eq_false_iff _).mpr b2⟩, b3⟩
+  · intro hb
+    obtain ⟨s, sess, ha, hsess, he, hv, hsu, hms⟩ := (psh_true_iff tbl nb hs c h sh).mp hb
+    have g1 : (sess.vers != c.vers || sess.cipherSuite != s.id) = false := by simp [hv, hsu]
+    have g2 : sess.masterSecret.isEmpty = false := (isEmpty_eq_false_iff _).mpr hms
+    have hval := psh_resumed tbl nb hs c h sh s sess ha hsess he
+    simp only [g1, g2, Bool.false_eq_true, if_false] at hval
+    rw [hval]
+    exact ⟨rfl, s, sess, hsess, rfl, rfl, rfl⟩
+
+/-- THE CLIENT REFUSES a resumption it cannot trust: the suite, compression method and protocol accepted, a session
+held and its id echoed — but the session's version is not the connection's, or its suite is not the negotiated one:
+handshake_failure (40) and an error; or it has no master secret: internal_error (80) and an error.  Never
+"resumed", never a nil error. -/
+theorem C10_src_sel_client_refuses_tlcp (tbl : BitVec 16 → Option cipherSuite) (nb : List (BitVec 8) → Bool)
+    (hs : clientHandshakeState) (c : Conn) (h : clientHelloMsg) (sh : serverHelloMsg)
+    (hc : hs.c = some c) (hh : hs.hello = some h) (hsh : hs.serverHello = some sh)
+    (s : cipherSuite) (sess : SessionState)
+    (hm : mutualCipherSuite tbl h.cipherSuites sh.cipherSuite = some s) (hcomp : sh.compressionMethod = 0#8)
+    (halpn : checkALPN h.alpnProtocols sh.alpnProtocol = none) (hsess : hs.session = some sess)
+    (hnb : nb h.sessionId = true) (hne : sh.sessionId ≠ []) (hecho : sh.sessionId = h.sessionId) :
+    (sess.vers ≠ c.vers ∨ sess.cipherSuite ≠ s.id →
+      clientHandshakeState.processServerHello tbl nb hs =
+        .ok ({ hs with suite := some s, c := some { c with cipherSuite := s.id, clientProtocol := sh.alpnProtocol,
+                                                           alerts := c.alerts ++ [40#8] } },
+             false, some Go.Error.other)) ∧
+    (sess.vers = c.vers → sess.cipherSuite = s.id → sess.masterSecret = [] →
+      clientHandshakeState.processServerHello tbl nb hs =
+        .ok ({ hs with suite := some s, c := some { c with cipherSuite := s.id, clientProtocol := sh.alpnProtocol,
+                                                           alerts := c.alerts ++ [80#8] } },
+             false, some Go.Error.other)) := by
+  have ha : accepted tbl h sh s := ⟨by rw [← mutual_eq]; exact hm, hcomp, by rw [← checkALPN_eq]; exact halpn⟩
+  have he : echoed nb h sh = true := by
+    unfold echoed
+    simp only [Bool.and_eq_true, Bool.not_eq_true', beq_iff_eq]
+    exact ⟨⟨hnb, (isEmpty_eq_false_iff _).mpr hne⟩, hecho⟩
+  rw [psh_eq tbl nb hs c h sh hc hh hsh, psh_resumed tbl nb hs c h sh s sess ha hsess he]
+  constructor
+  · intro hbad
+    have g1 : (sess.vers != c.vers || sess.cipherSuite != s.id) = true := by
+      rcases hbad with b | b <;> simp [b]
+    simp only [g1, if_true]
+    rfl
+  · intro hv hsu hms
+    have g1 : (sess.vers != c.vers || sess.cipherSuite != s.id) = false := by simp [hv, hsu]
+    have g2 : sess.masterSecret.isEmpty = true := by rw [hms]; rfl
+    simp only [g1, g2, Bool.false_eq_true, if_false, if_true]
+    rfl
+
+/-- outside the non-nil hypotheses the client's `processServerHello` panics -/
+theorem C10_src_sel_client_nil_panics_tlcp (tbl : BitVec 16 → Option cipherSuite) (nb : List (BitVec 8) → Bool)
+    (hs : clientHandshakeState) (h : ¬ ∃ c hl sh, hs.c = some c ∧ hs.hello = some hl ∧ hs.serverHello = some sh) :
+    clientHandshakeState.processServerHello tbl nb hs = .error nilDeref :=
+  psh_nil tbl nb hs h
+
+/-- RESUMPTION AGREEMENT, translated server and translated client (tables whose entries carry their own id): when
+the server resumes — `checkForResumption` true, session `st`, suite `s` — and answers with `s.id`, the offered id,
+null compression and an acceptable protocol, a client that offered what the server saw, sent that (non-nil) id and
+holds a session with the same version and suite and a master secret reports "resumed" with the same suite. -/
+theorem C10_src_sel_resumption_agreement_tlcp (tbl : BitVec 16 → Option cipherSuite)
+    (htbl : ∀ id x, tbl id = some x → x.id = id) (nn : List (BitVec 16) → Bool) (nb : List (BitVec 8) → Bool)
+    (hs : serverHandshakeState) (c : Conn) (cfg : Config) (ch : clientHelloMsg)
+    (hc : hs.c = some c) (hcfg : c.config = some cfg) (hch : hs.clientHello = some ch) (hs' : serverHandshakeState)
+    (hres : serverHandshakeState.checkForResumption tbl nn hs = .ok (hs', true))
+    (st : SessionState) (s : cipherSuite) (hst : hs'.sessionState = some st) (hsu : hs'.suite = some s)
+    (chs : clientHandshakeState) (cc : Conn) (h : clientHelloMsg) (sh : serverHelloMsg) (sess : SessionState)
+    (hcc : chs.c = some cc) (hh : chs.hello = some h) (hsh : chs.serverHello = some sh)
+    (hoffer : h.cipherSuites = ch.cipherSuites) (hid : h.sessionId = ch.sessionId) (hnb : nb h.sessionId = true)
+    (hannounce : sh.cipherSuite = s.id) (hecho : sh.sessionId = ch.sessionId) (hcomp : sh.compressionMethod = 0#8)
+    (halpn : checkALPN h.alpnProtocols sh.alpnProtocol = none)
+    (hsess : chs.session = some sess) (hv : sess.vers = cc.vers) (hcs : sess.cipherSuite = st.cipherSuite)
+    (hms : sess.masterSecret ≠ []) :
+    ∃ chs', clientHandshakeState.processServerHello tbl nb chs = .ok (chs', true, none) ∧ chs'.suite = some s ∧
+      chs'.masterSecret = sess.masterSecret := by
+  obtain ⟨st2, s2, ⟨_, hsid, _, _, _, k8, k9, _, _⟩, rfl⟩ := (cfr_true_iff tbl nn hs c cfg ch hc hcfg hch hs').mp hres
+  simp only [Option.some.injEq] at hst hsu
+  subst hst; subst hsu
+  have hsid2 : s2.id = st2.cipherSuite := htbl _ _ k9
+  have hm : mutualSpec tbl h.cipherSuites sh.cipherSuite = some s2 := by
+    unfold mutualSpec
+    have : h.cipherSuites.contains sh.cipherSuite = true := by
+      rw [hoffer, hannounce, hsid2]; simpa using k8
+    rw [this, hannounce, hsid2]
+    simpa using k9
+  have ha : accepted tbl h sh s2 := ⟨hm, hcomp, by rw [← checkALPN_eq]; exact halpn⟩
+  have he : echoed nb h sh = true := by
+    unfold echoed
+    simp only [Bool.and_eq_true, Bool.not_eq_true', beq_iff_eq]
+    exact ⟨⟨hnb, (isEmpty_eq_false_iff _).mpr (by rw [hecho]; exact hsid)⟩, by rw [hecho, hid]⟩
+  rw [psh_eq tbl nb chs cc h sh hcc hh hsh, psh_resumed tbl nb chs cc h sh s2 sess ha hsess he]
+  have g1 : (sess.vers != cc.vers || sess.cipherSuite != s2.id) = false := by simp [hv, hcs, hsid2]
+  have g2 : sess.masterSecret.isEmpty = false := (isEmpty_eq_false_iff _).mpr hms
+  simp only [g1, g2, Bool.false_eq_true, if_false]
+  exact ⟨_, rfl, rfl, rfl⟩
+
+/-- The translated decision IS the decision of the model the theorems of Props/C10.lean are about
+(`Model.Resumption.checkForResumption`, with the parameters of either stack), whenever the cache stub answers the
+one lookup as the model's LRU does (`LookAbs`), the model's connection describes the Go configuration (policy,
+version, offer, enabled suites) and every enabled suite is in the table with usable keys (the model has no table
+and no key types).  In particular the model's five guards are the translated code's. -/
+theorem C10_src_sel_is_model_tlcp (p : Model.Resumption.Params)
+    (hp : p = Oracle.C10.tlcpParams ∨ p = Oracle.C10.dtlcpParams)
+    (w : Model.Resumption.World) (mc : Model.Resumption.Conn) (off : List Nat) (x : Nat)
+    (tbl : BitVec 16 → Option cipherSuite) (nn : List (BitVec 16) → Bool) (hs : serverHandshakeState)
+    (c : Conn) (cfg : Config) (ch : clientHelloMsg) (cache : goCache)
+    (hc : hs.c = some c) (hcfg : c.config = some cfg) (hch : hs.clientHello = some ch)
+    (hcache : cfg.SessionCache = some cache) (hsid : ch.sessionId ≠ [])
+    (hauth : cfg.ClientAuth = ((mc.auth : Nat) : Int)) (hvers : c.vers.toNat = p.version)
+    (hoff : off = ch.cipherSuites.map (·.toNat)) (hss : mc.ssuites = (Config.cipherSuites nn cfg).map (·.toNat))
+    (husable : ∀ id, id ∈ Config.cipherSuites nn cfg →
+      ∃ s, tbl id = some s ∧ serverHandshakeState.cipherSuiteOk hs s = true)
+    (hlook : LookAbs w mc.server x cache (Go.hexEncode ch.sessionId)) :
+    ∃ hs', serverHandshakeState.checkForResumption tbl nn hs =
+      .ok (hs', (Model.Resumption.checkForResumption p w mc off (some x)).2.isSome) := by
+  have hreq : p.requires = [2, 4, 5] := by
+    rcases hp with h | h <;> subst h
+    · exact C10_src_sel_translated.2.1
+    · exact C10_src_sel_translated.2.2
+  exact tie_model_checkForResumption p hreq w mc off x tbl nn hs c cfg ch cache hc hcfg hch hcache hsid hauth hvers
+    hoff hss husable hlook
+
+end tlcp
+
+/-! ### DTLCP (the same statements about `Gotlcp.Src.dtlcp.sel`) -/
+
+section dtlcp
+open Gotlcp.Src.dtlcp.sel Gotlcp.Tie.Select.dtlcp Gotlcp.Tie.ResumeDecision.dtlcp
+
+/-- `selectCipherSuite` on the one-element list `[x]`, on the translated text -/
+theorem select_single_dtlcp (tbl : BitVec 16 → Option cipherSuite) (x : BitVec 16) (supported : List (BitVec 16))
+    (ok : cipherSuite → Bool) (s : cipherSuite) :
+    selectCipherSuite tbl [x] supported ok = .ok (some s) ↔ tbl x = some s ∧ ok s = true ∧ x ∈ supported := by
+  rw [select_eq]
+  simp only [Except.ok.injEq]
+  exact selectSpec_singleton tbl x supported ok s
+
+/-- RESUME IFF.  The translated `checkForResumption` returns true EXACTLY when: a session cache is configured; the
+ClientHello's session id is non-empty; the FIRST cache entry under `hex(session id)` holds a non-nil state `st`; a
+policy for which `requiresClientCert` holds finds client certificates recorded in `st`; a session with recorded
+client certificates is not resumed under NoClientCert (0); `st.vers` is the connection's version; the ClientHello
+still offers `st.cipherSuite`; and `selectCipherSuite([st.cipherSuite], c.config.cipherSuites(), hs.cipherSuiteOk)`
+returns a suite `s`.  Then `hs.sessionState = st`, `hs.suite = s`, and nothing else changed. -/
+theorem C10_src_sel_resume_iff_dtlcp (tbl : BitVec 16 → Option cipherSuite) (nn : List (BitVec 16) → Bool)
+    (hs : serverHandshakeState) (c : Conn) (cfg : Config) (ch : clientHelloMsg)
+    (hc : hs.c = some c) (hcfg : c.config = some cfg) (hch : hs.clientHello = some ch) (hs' : serverHandshakeState) :
+    serverHandshakeState.checkForResumption tbl nn hs = .ok (hs', true) ↔
+      ∃ cache e st s,
+        cfg.SessionCache = some cache ∧ ch.sessionId ≠ [] ∧
+        cache.entries.find? (fun e => e.key == Go.hexEncode ch.sessionId) = some e ∧ e.state = some st ∧
+        (requiresClientCert cfg.ClientAuth = true → st.peerCertificates ≠ []) ∧
+        (st.peerCertificates ≠ [] → cfg.ClientAuth ≠ 0) ∧
+        st.vers = c.vers ∧ st.cipherSuite ∈ ch.cipherSuites ∧
+        selectCipherSuite tbl [st.cipherSuite] (Config.cipherSuites nn cfg) (serverHandshakeState.cipherSuiteOk hs) =
+          .ok (some s) ∧
+        hs' = { hs with sessionState := some st, suite := some s } := by
+  rw [cfr_true_iff tbl nn hs c cfg ch hc hcfg hch]
+  constructor
+  · rintro ⟨st, s, ⟨⟨cache, e, h1, h2, h3⟩, h4, h5, h6, h7, h8, h9, h10, h11⟩, rfl⟩
+    exact ⟨cache, e, st, s, h1, h4, h2, h3, h5, h6, h7, h8, (select_single_dtlcp _ _ _ _ _).mpr ⟨h9, h10, h11⟩, rfl⟩
+  · rintro ⟨cache, e, st, s, h1, h4, h2, h3, h5, h6, h7, h8, hsel, rfl⟩
+    obtain ⟨h9, h10, h11⟩ := (select_single_dtlcp _ _ _ _ _).mp hsel
+    exact ⟨st, s, ⟨⟨cache, e, h1, h2, h3⟩, h4, h5, h6, h7, h8, h9, h10, h11⟩, rfl⟩
+
+/-- REFUSED.  Let the cache hold the session `st` under the offered id (first match).  If the policy requires a
+client certificate and `st` records none, or `st` records one and the policy is NoClientCert, or `st.vers` is not
+the connection's version, or the client no longer offers `st.cipherSuite`, or the configuration in use no longer
+enables it, or the table does not know it, or the key types do not admit it — then `checkForResumption` returns
+FALSE, with no error; the state it leaves differs from the one it found only in `hs.sessionState` (and possibly
+`hs.suite = nil`): the connection, the ClientHello and the key flags are untouched, no alert is sent. -/
+theorem C10_src_sel_refused_dtlcp (tbl : BitVec 16 → Option cipherSuite) (nn : List (BitVec 16) → Bool)
+    (hs : serverHandshakeState) (c : Conn) (cfg : Config) (ch : clientHelloMsg) (cache : goCache) (e : goCacheEntry)
+    (st : SessionState)
+    (hc : hs.c = some c) (hcfg : c.config = some cfg) (hch : hs.clientHello = some ch)
+    (hcache : cfg.SessionCache = some cache) (hsid : ch.sessionId ≠ [])
+    (hf : cache.entries.find? (fun e => e.key == Go.hexEncode ch.sessionId) = some e) (hst : e.state = some st)
+    (hbad : (requiresClientCert cfg.ClientAuth = true ∧ st.peerCertificates = []) ∨
+            (st.peerCertificates ≠ [] ∧ cfg.ClientAuth = 0) ∨
+            st.vers ≠ c.vers ∨ st.cipherSuite ∉ ch.cipherSuites ∨ st.cipherSuite ∉ Config.cipherSuites nn cfg ∨
+            tbl st.cipherSuite = none ∨
+            (∀ s, tbl st.cipherSuite = some s → serverHandshakeState.cipherSuiteOk hs s = false)) :
+    ∃ hs', serverHandshakeState.checkForResumption tbl nn hs = .ok (hs', false) ∧
+      hs'.c = hs.c ∧ hs'.clientHello = hs.clientHello ∧ keys hs' = keys hs ∧ hs'.sessionState = some st ∧
+      (hs'.suite = hs.suite ∨ hs'.suite = none) := by
+  obtain ⟨hs', hres⟩ := cfr_found tbl nn hs c cfg ch cache e st hc hcfg hch hcache hsid hf hst
+  have hd : decision tbl nn hs c cfg ch st = false := by
+    cases hdd : decision tbl nn hs c cfg ch st with
+    | false => rfl
+    | true =>
+      rw [hdd] at hres
+      obtain ⟨st2, s2, ⟨⟨cache2, e2, k1, k2, k3⟩, _, k5, k6, k7, k8, k9, k10, k11⟩, _⟩ :=
+        (cfr_true_iff tbl nn hs c cfg ch hc hcfg hch hs').mp hres
+      rw [hcache] at k1
+      cases k1
+      rw [hf] at k2
+      cases k2
+      rw [hst] at k3
+      cases k3
+      rcases hbad with ⟨b1, b2⟩ | ⟨b1, b2⟩ | b | b | b | b | b
+      · exact absurd b2 (k5 b1)
+      · exact absurd b2 (k6 b1)
+      · exact absurd k7 b
+      · exact absurd k8 b
+      · exact absurd k11 b
+      · rw [b] at k9; cases k9
+      · rw [b s2 k9] at k10; cases k10
+  rw [hd] at hres
+  obtain ⟨ss, hfr⟩ := cfr_false_frame tbl nn hs c cfg ch hc hcfg hch hs' hres
+  have hss : hs'.sessionState = some st := by
+    rw [cfr_eq tbl nn hs c cfg ch hc hcfg hch] at hres
+    unfold cfrSpec at hres
+    have h0 : ch.sessionId.isEmpty = false := (isEmpty_eq_false_iff _).mpr hsid
+    simp only [hcache, h0, Bool.false_eq_true, if_false, hf, hst] at hres
+    split at hres
+    · cases hres; rfl
+    · split at hres
+      · cases hres; rfl
+      · split at hres
+        · cases hres; rfl
+        · split at hres
+          · cases hres; rfl
+          · split at hres <;> cases hres <;> rfl
+  refine ⟨hs', hres, ?_, ?_, ?_, hss, ?_⟩ <;> rcases hfr with h | h <;> subst h
+  · rfl
+  · rfl
+  · rfl
+  · rfl
+  · rfl
+  · rfl
+  · exact Or.inl rfl
+  · exact Or.inr rfl
+
+/-- TRANSPARENT FALL-BACK.  After a refused resumption (`checkForResumption` returned false) the server's
+`pickCipherSuite` picks exactly the suite, sends exactly the alerts and returns exactly the error it would have
+without any session having been offered. -/
+theorem C10_src_sel_fallback_transparent_dtlcp (tbl : BitVec 16 → Option cipherSuite) (nn : List (BitVec 16) → Bool)
+    (hs : serverHandshakeState) (c : Conn) (cfg : Config) (ch : clientHelloMsg)
+    (hc : hs.c = some c) (hcfg : c.config = some cfg) (hch : hs.clientHello = some ch) (hs' : serverHandshakeState)
+    (h : serverHandshakeState.checkForResumption tbl nn hs = .ok (hs', false)) :
+    (serverHandshakeState.pickCipherSuite tbl nn hs').map (fun r => (r.1.suite, r.1.c, r.2)) =
+    (serverHandshakeState.pickCipherSuite tbl nn hs).map (fun r => (r.1.suite, r.1.c, r.2)) := by
+  obtain ⟨ss, hfr⟩ := cfr_false_frame tbl nn hs c cfg ch hc hcfg hch hs' h
+  rw [pick_eq tbl nn hs c cfg ch hc hcfg hch]
+  rcases hfr with h | h <;> subst h
+  · rw [pick_eq tbl nn { hs with sessionState := ss } c cfg ch hc hcfg hch]
+    have hk : keys { hs with sessionState := ss } = keys hs := rfl
+    rw [hk]
+    cases pickSpec tbl (Config.cipherSuites nn cfg) ch.cipherSuites (fun s => okFlags (keys hs) s.flags) <;> rfl
+  · rw [pick_eq tbl nn { hs with sessionState := ss, suite := none } c cfg ch hc hcfg hch]
+    have hk : keys { hs with sessionState := ss, suite := none } = keys hs := rfl
+    rw [hk]
+    cases pickSpec tbl (Config.cipherSuites nn cfg) ch.cipherSuites (fun s => okFlags (keys hs) s.flags) <;> rfl
+
+/-- THE RESUMED SUITE.  When the translated `checkForResumption` returns true, the handshake state holds a session
+`st` and a suite `s` such that: `s` is the table entry of the session's OWN suite id; the configuration in use
+still enables that id; the client still offers it; the key types still admit `s`; the session has the connection's
+version; and (tables whose entries carry their own id) `s.id = st.cipherSuite`. -/
+theorem C10_src_sel_resumed_suite_dtlcp (tbl : BitVec 16 → Option cipherSuite) (nn : List (BitVec 16) → Bool)
+    (hs : serverHandshakeState) (c : Conn) (cfg : Config) (ch : clientHelloMsg)
+    (hc : hs.c = some c) (hcfg : c.config = some cfg) (hch : hs.clientHello = some ch) (hs' : serverHandshakeState)
+    (h : serverHandshakeState.checkForResumption tbl nn hs = .ok (hs', true)) :
+    ∃ st s, hs'.sessionState = some st ∧ hs'.suite = some s ∧ tbl st.cipherSuite = some s ∧
+      st.cipherSuite ∈ Config.cipherSuites nn cfg ∧ st.cipherSuite ∈ ch.cipherSuites ∧
+      serverHandshakeState.cipherSuiteOk hs s = true ∧ st.vers = c.vers ∧
+      ((∀ id x, tbl id = some x → x.id = id) → s.id = st.cipherSuite) ∧
+      hs'.c = hs.c ∧ hs'.clientHello = hs.clientHello := by
+  obtain ⟨st, s, ⟨_, _, _, _, k7, k8, k9, k10, k11⟩, rfl⟩ := (cfr_true_iff tbl nn hs c cfg ch hc hcfg hch hs').mp h
+  exact ⟨st, s, rfl, rfl, k9, k11, k8, k10, k7, fun ht => ht _ _ k9, rfl, rfl⟩
+
+/-- PANICS.  `checkForResumption` panics when `hs.c` or `hs.c.config` is nil; with a session cache configured, when
+`hs.clientHello` is nil (without one it returns false before touching the ClientHello); and when the cache answers
+`(nil, true)` for the offered id: `hs.sessionState` is then nil and `len(hs.sessionState.peerCertificates)`
+dereferences it.  (The repository's own `lruSessionCache` never stores a nil state — `Put(k, nil)` deletes — so
+this needs a foreign `SessionCache` implementation.) -/
+theorem C10_src_sel_panics_dtlcp (tbl : BitVec 16 → Option cipherSuite) (nn : List (BitVec 16) → Bool)
+    (hs : serverHandshakeState) :
+    (hs.c = none ∨ (∃ c, hs.c = some c ∧ c.config = none) →
+      serverHandshakeState.checkForResumption tbl nn hs = .error nilDeref) ∧
+    (∀ c cfg, hs.c = some c → c.config = some cfg → cfg.SessionCache = none →
+      serverHandshakeState.checkForResumption tbl nn hs = .ok (hs, false)) ∧
+    (∀ c cfg cache, hs.c = some c → c.config = some cfg → cfg.SessionCache = some cache → hs.clientHello = none →
+      serverHandshakeState.checkForResumption tbl nn hs = .error nilDeref) ∧
+    (∀ c cfg ch cache e, hs.c = some c → c.config = some cfg → hs.clientHello = some ch →
+      cfg.SessionCache = some cache → ch.sessionId ≠ [] →
+      cache.entries.find? (fun e => e.key == Go.hexEncode ch.sessionId) = some e → e.state = none →
+      serverHandshakeState.checkForResumption tbl nn hs = .error nilDeref) :=
+  ⟨cfr_nil_conn tbl nn hs, fun c cfg h1 h2 h3 => cfr_no_cache tbl nn hs c cfg h1 h2 h3,
+    fun c cfg cache h1 h2 h3 h4 => cfr_nil_hello tbl nn hs c cfg cache h1 h2 h3 h4,
+    fun c cfg ch cache e h1 h2 h3 h4 h5 h6 h7 => cfr_nil_state tbl nn hs c cfg ch h1 h2 h3 ⟨cache, e, h4, h5, h6, h7⟩⟩
+
+/-- TOTAL otherwise: with non-nil `hs.c`, `hs.c.config`, `hs.clientHello` and a cache that does not answer
+`(nil, true)`, `checkForResumption` returns (no panic, and it has no loop that could run away). -/
+theorem C10_src_sel_total_dtlcp (tbl : BitVec 16 → Option cipherSuite) (nn : List (BitVec 16) → Bool)
+    (hs : serverHandshakeState) (c : Conn) (cfg : Config) (ch : clientHelloMsg)
+    (hc : hs.c = some c) (hcfg : c.config = some cfg) (hch : hs.clientHello = some ch)
+    (hn : ¬ ∃ cache e, cfg.SessionCache = some cache ∧ ch.sessionId ≠ [] ∧
+      cache.entries.find? (fun e => e.key == Go.hexEncode ch.sessionId) = some e ∧ e.state = none) :
+    ∃ hs' b, serverHandshakeState.checkForResumption tbl nn hs = .ok (hs', b) := by
+  obtain ⟨r, hr⟩ := cfr_total tbl nn hs c cfg ch hc hcfg hch hn
+  exact ⟨r.1, r.2, hr⟩
+
+/-- THE CLIENT.  `processServerHello` never panics (non-nil `hs.c`, `hs.hello`, `hs.serverHello`) and reports
+"resumed" EXACTLY when: the ServerHello's suite is one the client offered and the table knows (`s`), the compression
+method is null, the ALPN protocol is acceptable, the client holds a session, it sent a non-nil session id, the server
+echoed a non-empty identical id, the session has the connection's version, the session's suite is `s.id`, and the
+session has a master secret.  Then the error is nil, `hs.masterSecret` is a copy of the session's, the
+connection's peer certificates are the session's, `c.cipherSuite = s.id`. -/
+theorem C10_src_sel_client_resumed_iff_dtlcp (tbl : BitVec 16 → Option cipherSuite) (nb : List (BitVec 8) → Bool)
+    (hs : clientHandshakeState) (c : Conn) (h : clientHelloMsg) (sh : serverHelloMsg)
+    (hc : hs.c = some c) (hh : hs.hello = some h) (hsh : hs.serverHello = some sh) :
+    ∃ hs' b e, clientHandshakeState.processServerHello tbl nb hs = .ok (hs', b, e) ∧
+      (b = true ↔ ∃ s sess,
+        mutualCipherSuite tbl h.cipherSuites sh.cipherSuite = some s ∧ sh.compressionMethod = 0#8 ∧
+        checkALPN h.alpnProtocols sh.alpnProtocol = none ∧
+        hs.session = some sess ∧ nb h.sessionId = true ∧ sh.sessionId ≠ [] ∧ sh.sessionId = h.sessionId ∧
+        sess.vers = c.vers ∧ sess.cipherSuite = s.id ∧ sess.masterSecret ≠ []) ∧
+      (b = true → e = none ∧ ∃ s sess, hs.session = some sess ∧ hs'.suite = some s ∧
+        hs'.masterSecret = sess.masterSecret ∧
+        hs'.c = some { c with cipherSuite := s.id, clientProtocol := sh.alpnProtocol,
+                              peerCertificates := sess.peerCertificates }) := by
+  rw [psh_eq tbl nb hs c h sh hc hh hsh]
+  refine ⟨(pshSpec tbl nb hs c h sh).1, (pshSpec tbl nb hs c h sh).2.1, (pshSpec tbl nb hs c h sh).2.2, rfl, ?_, ?_⟩
+  · rw [psh_true_iff]
+    unfold accepted echoed
+    rw [mutual_eq, checkALPN_eq]
+    constructor
+    · rintro ⟨s, sess, ⟨a1, a2, a3⟩, a4, a5, a6, a7, a8⟩
+      simp only [Bool.and_eq_true, Bool.not_eq_true', beq_iff_eq] at a5
+      exact ⟨s, sess, a1, a2, a3, a4, a5.1.1, (isEmpty_eq_false_iff _).mp a5.1.2, a5.2, a6, a7, a8⟩
+    · rintro ⟨s, sess, a1, a2, a3, a4, b1, b2, b3, a6, a7, a8⟩
+      refine ⟨s, sess, ⟨a1, a2, a3⟩, a4, ?_, a6, a7, a8⟩
+      simp only [Bool.and_eq_true, Bool.not_eq_true', beq_iff_eq]
+      exact ⟨⟨b1, (isEmpty_eq_false_iff _).mpr b2⟩, b3⟩
+  · intro hb
+    obtain ⟨s, sess, ha, hsess, he, hv, hsu, hms⟩ := (psh_true_iff tbl nb hs c h sh).mp hb
+    have g1 : (sess.vers != c.vers || sess.cipherSuite != s.id) = false := by simp [hv, hsu]
+    have g2 : sess.masterSecret.isEmpty = false := (isEmpty_eq_false_iff _).mpr hms
+    have hval := psh_resumed tbl nb hs c h sh s sess ha hsess he
+    simp only [g1, g2, Bool.false_eq_true, if_false] at hval
+    rw [hval]
+    exact ⟨rfl, s, sess, hsess, rfl, rfl, rfl⟩
+
+/-- THE CLIENT REFUSES a resumption it cannot trust: the suite, compression method and protocol accepted, a session
+held and its id echoed — but the session's version is not the connection's, or its suite is not the negotiated one:
+handshake_failure (40) and an error; or it has no master secret: internal_error (80) and an error.  Never
+"resumed", never a nil error. -/
+theorem C10_src_sel_client_refuses_dtlcp (tbl : BitVec 16 → Option cipherSuite) (nb : List (BitVec 8) → Bool)
+    (hs : clientHandshakeState) (c : Conn) (h : clientHelloMsg) (sh : serverHelloMsg)
+    (hc : hs.c = some c) (hh : hs.hello = some h) (hsh : hs.serverHello = some sh)
+    (s : cipherSuite) (sess : SessionState)
+    (hm : mutualCipherSuite tbl h.cipherSuites sh.cipherSuite = some s) (hcomp : sh.compressionMethod = 0#8)
+    (halpn : checkALPN h.alpnProtocols sh.alpnProtocol = none) (hsess : hs.session = some sess)
+    (hnb : nb h.sessionId = true) (hne : sh.sessionId ≠ []) (hecho : sh.sessionId = h.sessionId) :
+    (sess.vers ≠ c.vers ∨ sess.cipherSuite ≠ s.id →
+      clientHandshakeState.processServerHello tbl nb hs =
+        .ok ({ hs with suite := some s, c := some { c with cipherSuite := s.id, clientProtocol := sh.alpnProtocol,
+                                                           alerts := c.alerts ++ [40#8] } },
+             false, some Go.Error.other)) ∧
+    (sess.vers = c.vers → sess.cipherSuite = s.id → sess.masterSecret = [] →
+      clientHandshakeState.processServerHello tbl nb hs =
+        .ok ({ hs with suite := some s, c := some { c with cipherSuite := s.id, clientProtocol := sh.alpnProtocol,
+                                                           alerts := c.alerts ++ [80#8] } },
+             false, some Go.Error.other)) := by
+  have ha : accepted tbl h sh s := ⟨by rw [← mutual_eq]; exact hm, hcomp, by rw [← checkALPN_eq]; exact halpn⟩
+  have he : echoed nb h sh = true := by
+    unfold echoed
+    simp only [Bool.and_eq_true, Bool.not_eq_true', beq_iff_eq]
+    exact ⟨⟨hnb, (isEmpty_eq_false_iff _).mpr hne⟩, hecho⟩
+  rw [psh_eq tbl nb hs c h sh hc hh hsh, psh_resumed tbl nb hs c h sh s sess ha hsess he]
+  constructor
+  · intro hbad
+    have g1 : (sess.vers != c.vers || sess.cipherSuite != s.id) = true := by
+      rcases hbad with b | b <;> simp [b]
+    simp only [g1, if_true]
+    rfl
+  · intro hv hsu hms
+    have g1 : (sess.vers != c.vers || sess.cipherSuite != s.id) = false := by simp [hv, hsu]
+    have g2 : sess.masterSecret.isEmpty = true := by rw [hms]; rfl
+    simp only [g1, g2, Bool.false_eq_true, if_false, if_true]
+    rfl
+
+/-- outside the non-nil hypotheses the client's `processServerHello` panics -/
+theorem C10_src_sel_client_nil_panics_dtlcp (tbl : BitVec 16 → Option cipherSuite) (nb : List (BitVec 8) → Bool)
+    (hs : clientHandshakeState) (h : ¬ ∃ c hl sh, hs.c = some c ∧ hs.hello = some hl ∧ hs.serverHello = some sh) :
+    clientHandshakeState.processServerHello tbl nb hs = .error nilDeref :=
+  psh_nil tbl nb hs h
+
+/-- RESUMPTION AGREEMENT, translated server and translated client (tables whose entries carry their own id): when
+the server resumes — `checkForResumption` true, session `st`, suite `s` — and answers with `s.id`, the offered id,
+null compression and an acceptable protocol, a client that offered what the server saw, sent that (non-nil) id and
+holds a session with the same version and suite and a master secret reports "resumed" with the same suite. -/
+theorem C10_src_sel_resumption_agreement_dtlcp (tbl : BitVec 16 → Option cipherSuite)
+    (htbl : ∀ id x, tbl id = some x → x.id = id) (nn : List (BitVec 16) → Bool) (nb : List (BitVec 8) → Bool)
+    (hs : serverHandshakeState) (c : Conn) (cfg : Config) (ch : clientHelloMsg)
+    (hc : hs.c = some c) (hcfg : c.config = some cfg) (hch : hs.clientHello = some ch) (hs' : serverHandshakeState)
+    (hres : serverHandshakeState.checkForResumption tbl nn hs = .ok (hs', true))
+    (st : SessionState) (s : cipherSuite) (hst : hs'.sessionState = some st) (hsu : hs'.suite = some s)
+    (chs : clientHandshakeState) (cc : Conn) (h : clientHelloMsg) (sh : serverHelloMsg) (sess : SessionState)
+    (hcc : chs.c = some cc) (hh : chs.hello = some h) (hsh : chs.serverHello = some sh)
+    (hoffer : h.cipherSuites = ch.cipherSuites) (hid : h.sessionId = ch.sessionId) (hnb : nb h.sessionId = true)
+    (hannounce : sh.cipherSuite = s.id) (hecho : sh.sessionId = ch.sessionId) (hcomp : sh.compressionMethod = 0#8)
+    (halpn : checkALPN h.alpnProtocols sh.alpnProtocol = none)
+    (hsess : chs.session = some sess) (hv : sess.vers = cc.vers) (hcs : sess.cipherSuite = st.cipherSuite)
+    (hms : sess.masterSecret ≠ []) :
+    ∃ chs', clientHandshakeState.processServerHello tbl nb chs = .ok (chs', true, none) ∧ chs'.suite = some s ∧
+      chs'.masterSecret = sess.masterSecret := by
+  obtain ⟨st2, s2, ⟨_, hsid, _, _, _, k8, k9, _, _⟩, rfl⟩ := (cfr_true_iff tbl nn hs c cfg ch hc hcfg hch hs').mp hres
+  simp only [Option.some.injEq] at hst hsu
+  subst hst; subst hsu
+  have hsid2 : s2.id = st2.cipherSuite := htbl _ _ k9
+  have hm : mutualSpec tbl h.cipherSuites sh.cipherSuite = some s2 := by
+    unfold mutualSpec
+    have : h.cipherSuites.contains sh.cipherSuite = true := by
+      rw [hoffer, hannounce, hsid2]; simpa using k8
+    rw [this, hannounce, hsid2]
+    simpa using k9
+  have ha : accepted tbl h sh s2 := ⟨hm, hcomp, by rw [← checkALPN_eq]; exact halpn⟩
+  have he : echoed nb h sh = true := by
+    unfold echoed
+    simp only [Bool.and_eq_true, Bool.not_eq_true', beq_iff_eq]
+    exact ⟨⟨hnb, (isEmpty_eq_false_iff _).mpr (by rw [hecho]; exact hsid)⟩, by rw [hecho, hid]⟩
+  rw [psh_eq tbl nb chs cc h sh hcc hh hsh, psh_resumed tbl nb chs cc h sh s2 sess ha hsess he]
+  have g1 : (sess.vers != cc.vers || sess.cipherSuite != s2.id) = false := by simp [hv, hcs, hsid2]
+  have g2 : sess.masterSecret.isEmpty = false := (isEmpty_eq_false_iff _).mpr hms
+  simp only [g1, g2, Bool.false_eq_true, if_false]
+  exact ⟨_, rfl, rfl, rfl⟩
+
+/-- The translated decision IS the decision of the model the theorems of Props/C10.lean are about
+(`Model.Resumption.checkForResumption`, with the parameters of either stack), whenever the cache stub answers the
+one lookup as the model's LRU does (`LookAbs`), the model's connection describes the Go configuration (policy,
+version, offer, enabled suites) and every enabled suite is in the table with usable keys (the model has no table
+and no key types).  In particular the model's five guards are the translated code's. -/
+theorem C10_src_sel_is_model_dtlcp (p : Model.Resumption.Params)
+    (hp : p = Oracle.C10.tlcpParams ∨ p = Oracle.C10.dtlcpParams)
+    (w : Model.Resumption.World) (mc : Model.Resumption.Conn) (off : List Nat) (x : Nat)
+    (tbl : BitVec 16 → Option cipherSuite) (nn : List (BitVec 16) → Bool) (hs : serverHandshakeState)
+    (c : Conn) (cfg : Config) (ch : clientHelloMsg) (cache : goCache)
+    (hc : hs.c = some c) (hcfg : c.config = some cfg) (hch : hs.clientHello = some ch)
+    (hcache : cfg.SessionCache = some cache) (hsid : ch.sessionId ≠ [])
+    (hauth : cfg.ClientAuth = ((mc.auth : Nat) : Int)) (hvers : c.vers.toNat = p.version)
+    (hoff : off = ch.cipherSuites.map (·.toNat)) (hss : mc.ssuites = (Config.cipherSuites nn cfg).map (·.toNat))
+    (husable : ∀ id, id ∈ Config.cipherSuites nn cfg →
+      ∃ s, tbl id = some s ∧ serverHandshakeState.cipherSuiteOk hs s = true)
+    (hlook : LookAbs w mc.server x cache (Go.hexEncode ch.sessionId)) :
+    ∃ hs', serverHandshakeState.checkForResumption tbl nn hs =
+      .ok (hs', (Model.Resumption.checkForResumption p w mc off (some x)).2.isSome) := by
+  have hreq : p.requires = [2, 4, 5] := by
+    rcases hp with h | h <;> subst h
+    · exact C10_src_sel_translated.2.1
+    · exact C10_src_sel_translated.2.2
+  exact tie_model_checkForResumption p hreq w mc off x tbl nn hs c cfg ch cache hc hcfg hch hcache hsid hauth hvers
+    hoff hss husable hlook
+
+end dtlcp
+
+/-! ### non-vacuity: the translated code evaluated by the kernel -/
+
+section examples
+open Gotlcp.Src.tlcp.sel
+
+def tblEx : BitVec 16 → Option cipherSuite := fun id =>
+  if id == 0xe053#16 ∨ id == 0xe013#16 then some { id := id, flags := 2 }
+  else if id == 0xe051#16 ∨ id == 0xe011#16 then some { id := id, flags := 3 } else none
+
+def nnEx : List (BitVec 16) → Bool := fun l => !l.isEmpty
+def nbEx : List (BitVec 8) → Bool := fun l => !l.isEmpty
+
+/-- the session the examples resume: version 0x0101, ECC-CBC -/
+def stEx : SessionState := { vers := 0x0101#16, cipherSuite := 0xe013#16 }
+
+/-- a server state: cache with `entries`, policy, offered id, offer, configured list -/
+def srvEx (entries : List goCacheEntry) (auth : Int) (sid : List (BitVec 8)) (offer cfgS : List (BitVec 16)) :
+    serverHandshakeState :=
+  { c := some { config := some { CipherSuites := cfgS, ClientAuth := auth, SessionCache := some { entries := entries } },
+                vers := 0x0101#16 },
+    clientHello := some { sessionId := sid, cipherSuites := offer }, ecSignOk := true, ecDecryptOk := true }
+
+/-- what the examples look at: no panic, the verdict, the id of `hs.suite`, the suite of `hs.sessionState` -/
+structure CfrOut where
+  ok : Bool
+  resumed : Bool
+  suite : Option (BitVec 16)
+  session : Option (BitVec 16)
+deriving DecidableEq, Repr
+
+def outEx (r : Except String (serverHandshakeState × Bool)) : CfrOut :=
+  match r with
+  | .ok x => ⟨true, x.2, x.1.suite.map (·.id), x.1.sessionState.map (·.cipherSuite)⟩
+  | .error _ => ⟨false, false, none, none⟩
+
+def keyEx : List (BitVec 8) := Go.hexEncode [1#8, 0xab#8]
+
+/-- resumed with the session's own suite (although ECC-GCM is offered, enabled and preferred); refused when the client
+no longer offers the suite, when the configuration no longer enables it, when the version differs, under a policy
+that requires a certificate the session does not record, with a recorded certificate under NoClientCert; a miss;
+the first match decides; `(nil, true)` is a panic -/
+example :
+    outEx (serverHandshakeState.checkForResumption tblEx nnEx
+      (srvEx [⟨keyEx, some stEx⟩] 0 [1#8, 0xab#8] [0xe053#16, 0xe013#16] [])) = ⟨true, true, some 0xe013#16, some 0xe013#16⟩ ∧
+    outEx (serverHandshakeState.checkForResumption tblEx nnEx
+      (srvEx [⟨keyEx, some stEx⟩] 0 [1#8, 0xab#8] [0xe053#16] [])) = ⟨true, false, none, some 0xe013#16⟩ ∧
+    outEx (serverHandshakeState.checkForResumption tblEx nnEx
+      (srvEx [⟨keyEx, some stEx⟩] 0 [1#8, 0xab#8] [0xe053#16, 0xe013#16] [0xe053#16])) = ⟨true, false, none, some 0xe013#16⟩ ∧
+    outEx (serverHandshakeState.checkForResumption tblEx nnEx
+      (srvEx [⟨keyEx, some { stEx with vers := 0x0102#16 }⟩] 0 [1#8, 0xab#8] [0xe013#16] [])) = ⟨true, false, none, some 0xe013#16⟩ ∧
+    outEx (serverHandshakeState.checkForResumption tblEx nnEx
+      (srvEx [⟨keyEx, some stEx⟩] 4 [1#8, 0xab#8] [0xe013#16] [])) = ⟨true, false, none, some 0xe013#16⟩ ∧
+    outEx (serverHandshakeState.checkForResumption tblEx nnEx
+      (srvEx [⟨keyEx, some { stEx with peerCertificates := [{}] }⟩] 0 [1#8, 0xab#8] [0xe013#16] [])) = ⟨true, false, none, some 0xe013#16⟩ ∧
+    outEx (serverHandshakeState.checkForResumption tblEx nnEx
+      (srvEx [⟨keyEx, some { stEx with peerCertificates := [{}] }⟩] 4 [1#8, 0xab#8] [0xe013#16] [])) = ⟨true, true, some 0xe013#16, some 0xe013#16⟩ ∧
+    outEx (serverHandshakeState.checkForResumption tblEx nnEx
+      (srvEx [⟨keyEx, some stEx⟩] 0 [2#8] [0xe013#16] [])) = ⟨true, false, none, none⟩ ∧
+    outEx (serverHandshakeState.checkForResumption tblEx nnEx
+      (srvEx [⟨keyEx, some { stEx with cipherSuite := 0xe053#16 }⟩, ⟨keyEx, some stEx⟩] 0 [1#8, 0xab#8] [0xe013#16] [])) =
+        ⟨true, false, none, some 0xe053#16⟩ ∧
+    outEx (serverHandshakeState.checkForResumption tblEx nnEx
+      (srvEx [⟨keyEx, none⟩] 0 [1#8, 0xab#8] [0xe013#16] [])) = ⟨false, false, none, none⟩ := by decide
+
+/-- what the client examples look at -/
+structure PshOut where
+  ok : Bool
+  resumed : Bool
+  err : Option Go.Error
+  alerts : Option (List (BitVec 8))
+  master : List (BitVec 8)
+  nPeer : Option Nat
+deriving DecidableEq, Repr
+
+def outExC (r : Except String (clientHandshakeState × Bool × Option Go.Error)) : PshOut :=
+  match r with
+  | .ok x => ⟨true, x.2.1, x.2.2, x.1.c.map (·.alerts), x.1.masterSecret, x.1.c.map (·.peerCertificates.length)⟩
+  | .error _ => ⟨false, false, none, none, [], none⟩
+
+def cliEx (sh : serverHelloMsg) (sess : Option SessionState) (sid : List (BitVec 8)) : clientHandshakeState :=
+  { c := some { vers := 0x0101#16 }, serverHello := some sh,
+    hello := some { sessionId := sid, cipherSuites := [0xe013#16, 0xe053#16] }, session := sess }
+
+/-- accepted (master secret copied, two peer certificates taken over); another suite: alert 40; another version:
+alert 40; no master secret: alert 80; another id echoed: a full handshake, no error -/
+example :
+    outExC (clientHandshakeState.processServerHello tblEx nbEx
+      (cliEx { cipherSuite := 0xe013#16, sessionId := [7#8] }
+        (some { stEx with masterSecret := [1#8, 2#8], peerCertificates := [{}, {}] }) [7#8])) =
+      ⟨true, true, none, some [], [1#8, 2#8], some 2⟩ ∧
+    outExC (clientHandshakeState.processServerHello tblEx nbEx
+      (cliEx { cipherSuite := 0xe053#16, sessionId := [7#8] } (some { stEx with masterSecret := [1#8] }) [7#8])) =
+      ⟨true, false, some Go.Error.other, some [40#8], [], some 0⟩ ∧
+    outExC (clientHandshakeState.processServerHello tblEx nbEx
+      (cliEx { cipherSuite := 0xe013#16, sessionId := [7#8] } (some { stEx with masterSecret := [1#8], vers := 0x0100#16 }) [7#8])) =
+      ⟨true, false, some Go.Error.other, some [40#8], [], some 0⟩ ∧
+    outExC (clientHandshakeState.processServerHello tblEx nbEx
+      (cliEx { cipherSuite := 0xe013#16, sessionId := [7#8] } (some stEx) [7#8])) =
+      ⟨true, false, some Go.Error.other, some [80#8], [], some 0⟩ ∧
+    outExC (clientHandshakeState.processServerHello tblEx nbEx
+      (cliEx { cipherSuite := 0xe013#16, sessionId := [8#8] } (some { stEx with masterSecret := [1#8] }) [7#8])) =
+      ⟨true, false, none, some [], [], some 0⟩ := by decide
+
+end examples
 
 end Gotlcp.Props.C10
